@@ -562,16 +562,29 @@ where
         // Remove the pre-inner alt, to be reinserted later so we always preserve it
         let old_alt = inp.errors.alt.take();
 
-        let out = self.parser.go::<Emit>(inp)?;
-        let span = inp.span_since(&before);
+        let res = self.parser.go::<Emit>(inp);
         let new_alt = inp.errors.alt.take();
+        let out = match res {
+            Ok(out) => out,
+            Err(()) => {
+                // The inner parser failed: the original alt is still valid, so reinsert it and then apply the inner
+                // parser's alt on top of it
+                inp.errors.alt = old_alt;
+                if let Some(new_alt) = new_alt {
+                    inp.add_alt_err(&new_alt.pos, new_alt.err);
+                }
+                return Err(());
+            }
+        };
+        let span = inp.span_since(&before);
 
         match (self.mapper)(out, span) {
             Ok(out) => {
-                // If successful, reinsert the original alt and then apply the new alt on top of it, since both are valid
+                // If successful, reinsert the original alt and then apply the new alt on top of it (at the position it
+                // was generated at), since both are valid
                 inp.errors.alt = old_alt;
                 if let Some(new_alt) = new_alt {
-                    inp.add_alt_err(&before.inner, new_alt.err);
+                    inp.add_alt_err(&new_alt.pos, new_alt.err);
                 }
                 Ok(M::bind(|| out))
             }
@@ -620,7 +633,8 @@ where
         match (self.mapper)(out, &mut MapExtra::new(&before, inp)) {
             Ok(out) => Ok(M::bind(|| out)),
             Err(err) => {
-                inp.add_alt_err(&inp.cursor().inner, err);
+                // Like `try_map`, report the rejection where the rejected match started
+                inp.add_alt_err(&before.inner, err);
                 Err(())
             }
         }
